@@ -2285,6 +2285,19 @@ class AssignIndex(Elemwise):
         return self.value.divisions
 
 
+def _has_ambiguous_operand(expr):
+    """Whether a single-partition operand of lower dimension could be row-aligned
+
+    With several partitions such an operand can only be broadcast (e.g. a
+    reduction aligned with the columns). For a single-partition expression it
+    may just as well be aligned with the rows (``df.mul(df.a, axis=0)``), in
+    which case head/tail would have to be applied to it as well.
+    """
+    return expr.npartitions == 1 and any(
+        isinstance(op, Expr) and 0 < op.ndim < expr.ndim for op in expr.operands
+    )
+
+
 class Head(Expr):
     """Take the first `n` rows of the first partition"""
 
@@ -2312,6 +2325,8 @@ class Head(Expr):
 
     def _simplify_down(self):
         if isinstance(self.frame, Elemwise):
+            if _has_ambiguous_operand(self.frame):
+                return
             npartitions = self.operand("npartitions")
             operands = [
                 Head(op, self.n, npartitions)
@@ -2424,8 +2439,12 @@ class Tail(Expr):
 
     def _simplify_down(self):
         if isinstance(self.frame, Elemwise):
+            if _has_ambiguous_operand(self.frame):
+                return
             operands = [
-                Tail(op, self.n) if isinstance(op, Expr) else op
+                Tail(op, self.n)
+                if isinstance(op, Expr) and not self.frame._broadcast_dep(op)
+                else op
                 for op in self.frame.operands
             ]
             return type(self.frame)(*operands)
